@@ -10,7 +10,8 @@ import itertools
 import random
 
 from .. import tlc, tlaval
-from ..common import CPUS, MachineryError, chunks, pmap
+from ..batch import run_batches
+from ..common import MachineryError
 
 MC_CFG = """SPECIFICATION Spec
 CONSTANTS
@@ -136,20 +137,23 @@ def run(ctx):
         if count == 4 and ctx.quick:
             orders = [orders[0]] + rng.sample(orders[1:], 5)
         case["orders"] = orders
-    events = [ev for part in pmap(observe_many, chunks(cases, CPUS * 4)) for ev in part]
-    by_id = {}
-    runs = 0
-    for case, event in zip(cases, events):
-        runs += len(case["orders"])
-        by_id[case["id"]] = {"op": "candidates", "input": {"arr": case["arr"], "orders": case["orders"]}, "call": call_text(case),
-                             "observed": event["runs"][0], "features": features(case["arr"]), "sampled": case["sampled"]}
-        if event["runs"][0]["v"] and any(c["kind"] != "single" for c in event["runs"][0]["v"]):
+    samples = {}
+    runs = sum(len(case["orders"]) for case in cases)
+
+    def describe(case, event):
+        first = event["runs"][0]
+        if first["v"] and any(c["kind"] != "single" for c in first["v"]):
             ctx.nontrivial_case(case["id"])
+        if case["id"] in (0, len(cases) // 2, len(cases) - 1):
+            samples[case["id"]] = {"arr": case["arr"], "observed": first}
+        return {"op": "candidates", "input": {"arr": case["arr"], "orders": case["orders"]}, "call": call_text(case),
+                "observed": first, "features": features(case["arr"]), "sampled": case["sampled"]}
+
     ctx.evaluations = runs
     ctx.notes["create_candidate_clusters_calls"] = runs
-    ctx.validate("Candidates_Trace", events, by_id, min_per_shard=150)
-    for case in (cases[0], cases[len(cases) // 2], cases[-1]):
-        ctx.sample({"arr": case["arr"], "observed": by_id[case["id"]]["observed"]})
+    run_batches(ctx, "Candidates_Trace", cases, observe_many, describe, min_per_shard=150)
+    for ident in sorted(samples):
+        ctx.sample(samples[ident])
     ctx.exhaustive = not ctx.quick
     ctx.rule = ("TLC enumerates every protocluster shape (core span of 1-3 bases incl. origin-spanning, neighbourhood 0/1/3) on a line "
                 "and a ring of 12; the harness forms all pairs (thorough; sampled in quick) with and without a shared defining gene "
